@@ -10,7 +10,7 @@ def check(tier, seed, only=None):
         # total_length == old total (0 at FIRST) + len as 64-bit values; byte->block conversions; layout invariant
         ("submit", "tape", "reference_loose", "per_param"),
         ("resubmit", "tape", "reference_loose", "per_param"),
-    ], only)
+    ], only, extra=p_ctx_common.base_jobs(tier, ("update", "final", "submit")))
     rep.default_replays()
     rep.assumptions.append(
         "ASSUMED (NASM): the lane managers keep `len<<4|lane` exact for job.len < 2^28 blocks (the C layer proves it "
